@@ -127,7 +127,7 @@ def _kw(op, names):
     out = {}
     for n in names:
         if n in op:
-            out[n] = op[n]
+            out[n] = vals.dec(op[n]) if n == 'tag' else op[n]
     return out
 
 
@@ -180,7 +180,7 @@ def _do(c, op, ctx):
     if name == 'clear':
         return fp(c.clear(**_kw(op, ('retry',))))
     if name == 'evict':
-        return fp(c.evict(op['tag'], **_kw(op, ('retry',))))
+        return fp(c.evict(vals.dec(op['tag']), **_kw(op, ('retry',))))
     if name == 'expire':
         return fp(c.expire(**_kw(op, ('retry',))))
     if name == 'cull':
